@@ -30,7 +30,9 @@ def closedFlag : Stream → Bool
   | .http s => s.closed
   | .ws s => s.closed
 
-structure Inv (st : St) (g : Ws.Frag) : Prop where
+/-- `InvX true` is the invariant; `InvX false` is what holds *inside* an application send of the latest WebSocket stream, between
+    the events it hands to the protocol (the HANDSHAKE clause is re-established when the send is over) -/
+structure InvX (b : Bool) (st : St) (g : Ws.Frag) : Prop where
   wsObj : ∀ (i : Nat) (s : Ws.S), st.objs[i]? = some (Stream.ws s) → st.wsMode = true ∧ Ws.Ok s
   httpObj : ∀ (i : Nat) (s : Http.S), st.objs[i]? = some (Stream.http s) → (s.st = .response ∨ s.st = .trailers) → s.response.isSome = true
   buf : ∀ (i : Nat) (s : Ws.S), st.cur = some i → st.objs[i]? = some (Stream.ws s) → Ws.BufRel g s.buffer
@@ -39,9 +41,14 @@ structure Inv (st : St) (g : Ws.Frag) : Prop where
   openCur : ∀ (i : Nat) (o : Stream), st.objs[i]? = some o → closedFlag o = false → st.cur = some i
   objs : ∀ (i : Nat) (o : Stream), st.objs[i]? = some o → Inert o ∨ (i + 1 = st.objs.length ∧ st.lib.client ≠ .idle)
   live : ∀ (i : Nat) (s : Http.S), st.objs[i]? = some (Stream.http s) → s.st ≠ .closed → st.lib.client = .error ∨ H11M.NotBad st.lib.server
-  hand : ∀ (i : Nat) (s : Ws.S), st.cur = some i → st.objs[i]? = some (Stream.ws s) → s.st = .handshake → s.closed = false →
+  hand : b = true → ∀ (i : Nat) (s : Ws.S), st.cur = some i → st.objs[i]? = some (Stream.ws s) → s.st = .handshake → s.closed = false →
     st.lib.server = .sendResponse ∧ st.lib.pendUpgrade = true
   wait : st.lib.waiting100 = true → st.wsMode = false → st.switched = false → st.lib.server = .sendResponse ∧ st.pc = .inLoop
+
+abbrev Inv (st : St) (g : Ws.Frag) : Prop := InvX true st g
+
+theorem InvX.weaken {b : Bool} {st : St} {g : Ws.Frag} (h : InvX b st g) : InvX false st g :=
+  { h with hand := fun hb => by cases hb }
 
 theorem inv_init : Inv {} none where
   wsObj := by intro i s h; simp at h
@@ -52,17 +59,17 @@ theorem inv_init : Inv {} none where
   openCur := by intro i o h; simp at h
   objs := by intro i o h; simp at h
   live := by intro i s h; simp at h
-  hand := by intro i s h; simp at h
+  hand := by intro _ i s h; simp at h
   wait := by intro h; simp at h
 
 /-- frame: the objects, the current stream and the mode are untouched; what changed is h11's state and the reader's position -/
-theorem inv_frame {st st' : St} {g : Ws.Frag} (hI : Inv st g) (ho : st'.objs = st.objs) (hc : st'.cur = st.cur) (hw : st'.wsMode = st.wsMode)
+theorem inv_frame {b b' : Bool} {st st' : St} {g : Ws.Frag} (hI : InvX b st g) (ho : st'.objs = st.objs) (hc : st'.cur = st.cur) (hw : st'.wsMode = st.wsMode)
     (h1 : st'.lib.client = .idle → st.lib.client = .idle)
     (h2 : ∀ (i : Nat) (s : Http.S), st.objs[i]? = some (Stream.http s) → s.st ≠ .closed → st'.lib.client = .error ∨ H11M.NotBad st'.lib.server)
-    (h3 : ∀ (i : Nat) (s : Ws.S), st.cur = some i → st.objs[i]? = some (Stream.ws s) → s.st = .handshake → s.closed = false →
+    (h3 : b' = true → ∀ (i : Nat) (s : Ws.S), st.cur = some i → st.objs[i]? = some (Stream.ws s) → s.st = .handshake → s.closed = false →
       st'.lib.server = .sendResponse ∧ st'.lib.pendUpgrade = true)
     (h4 : st'.lib.waiting100 = true → st'.wsMode = false → st'.switched = false → st'.lib.server = .sendResponse ∧ st'.pc = .inLoop) :
-    Inv st' g where
+    InvX b' st' g where
   wsObj := by intro i s h; rw [ho] at h; rw [hw]; exact hI.wsObj i s h
   httpObj := by intro i s h; rw [ho] at h; exact hI.httpObj i s h
   buf := by intro i s h1' h2'; rw [hc] at h1'; rw [ho] at h2'; exact hI.buf i s h1' h2'
@@ -75,7 +82,7 @@ theorem inv_frame {st st' : St} {g : Ws.Frag} (hI : Inv st g) (ho : st'.objs = s
     · exact Or.inl hin
     · exact Or.inr ⟨by rw [ho]; exact hl, fun hi => hne (h1 hi)⟩
   live := by intro i s h hs; rw [ho] at h; exact h2 i s h hs
-  hand := by intro i s hcur h hs hcl; rw [hc] at hcur; rw [ho] at h; exact h3 i s hcur h hs hcl
+  hand := by intro hb i s hcur h hs hcl; rw [hc] at hcur; rw [ho] at h; exact h3 hb i s hcur h hs hcl
   wait := h4
 
 /-! ### `_close_stream` -/
@@ -151,7 +158,7 @@ theorem closedFlag_closeObj (o : Stream) : closedFlag (closeObj o) = true := by
   | http s => obtain ⟨s', he, _, h2, _⟩ := closeObj_http s; rw [he]; exact h2
   | ws s => obtain ⟨s', he, _, h2, _⟩ := closeObj_ws s; rw [he]; exact h2
 
-theorem inv_closeStream {st : St} {g : Ws.Frag} (hI : Inv st g) : Inv (closeStream st).1 g := by
+theorem inv_closeStream {b b' : Bool} {st : St} {g : Ws.Frag} (hI : InvX b st g) : InvX b' (closeStream st).1 g := by
   obtain ⟨hshape, hlen, hobj⟩ := closeStream_shape st
   have hlib : (closeStream st).1.lib = st.lib := by rw [hshape]
   have hwm : (closeStream st).1.wsMode = st.wsMode := by rw [hshape]
@@ -225,13 +232,13 @@ theorem inv_closeStream {st : St} {g : Ws.Frag} (hI : Inv st g) : Inv (closeStre
         obtain ⟨s', he', h1, _, _⟩ := closeObj_http s0
         rw [he'] at he; cases he
         exact hI.live i s0 ho (by rw [← h1]; exact hs)
-  · intro i s h; rw [hcur] at h; cases h
+  · intro _ i s h; rw [hcur] at h; cases h
   · intro h1 h2 h3; rw [hlib] at h1 ⊢; rw [hwm] at h2; rw [hsw] at h3; rw [hpc]; exact hI.wait h1 h2 h3
 
 /-- after `_close_stream` every object whose response is complete is inert -/
-theorem closeStream_closed {st : St} {g : Ws.Frag} (hI : Inv st g) (j : Nat) (o : Stream) (h : (closeStream st).1.objs[j]? = some o) :
+theorem closeStream_closed {b : Bool} {st : St} {g : Ws.Frag} (hI : InvX b st g) (j : Nat) (o : Stream) (h : (closeStream st).1.objs[j]? = some o) :
     closedFlag o = true := by
-  have hI' := inv_closeStream hI
+  have hI' : InvX false (closeStream st).1 g := inv_closeStream hI
   cases hf : closedFlag o with
   | true => rfl
   | false =>
@@ -252,8 +259,8 @@ theorem startNextCycle_eq (lib lib' : H11M.St) (h : H11M.startNextCycle lib = so
     exact ⟨hc.1, hc.2, rfl, rfl, rfl⟩
   · cases h
 
-theorem inv_maybeRecycle {st : St} {g : Ws.Frag} (hI : Inv st g) : Inv (maybeRecycle st).1 g := by
-  have hI1 := inv_closeStream hI
+theorem inv_maybeRecycle {b b' : Bool} {st : St} {g : Ws.Frag} (hI : InvX b st g) : InvX b' (maybeRecycle st).1 g := by
+  have hI1 : InvX b' (closeStream st).1 g := inv_closeStream hI
   have hcl := closeStream_closed hI
   have hcur1 : (closeStream st).1.cur = none := by rw [(closeStream_shape st).1]
   unfold maybeRecycle
@@ -283,7 +290,7 @@ theorem inv_maybeRecycle {st : St} {g : Ws.Frag} (hI : Inv st g) : Inv (maybeRec
         openCur := fun i o h hf => hI1.openCur i o h hf
         objs := fun i o h => Or.inl (hinert i o h)
         live := fun i s h hs => absurd (hinert i _ h).1 hs
-        hand := fun i s h => by rw [hcur1] at h; cases h
+        hand := fun _ i s h => by rw [hcur1] at h; cases h
         wait := fun h => by rw [hw'] at h; cases h }
     · exact hI1
   · -- no recycling: `closed`, the reader is released
@@ -296,7 +303,7 @@ theorem inv_maybeRecycle {st : St} {g : Ws.Frag} (hI : Inv st g) : Inv (maybeRec
       openCur := fun i o h hf => hI1.openCur i o h hf
       objs := fun i o h => hI1.objs i o h
       live := fun i s h hs => hI1.live i s h hs
-      hand := fun i s h => by rw [hcur1] at h; cases h
+      hand := fun _ i s h => by rw [hcur1] at h; cases h
       wait := fun h1 h2 h3 => by
         have := hI1.wait h1 h2 h3
         refine ⟨this.1, ?_⟩
@@ -304,7 +311,7 @@ theorem inv_maybeRecycle {st : St} {g : Ws.Frag} (hI : Inv st g) : Inv (maybeRec
 
 /-! ### replacing the latest object (an application send) -/
 
-theorem inv_setHttp {st : St} {g : Ws.Frag} (hI : Inv st g) (i : Nat) (s s' : Http.S) (lib' : H11M.St)
+theorem inv_setHttp {b b' : Bool} {st : St} {g : Ws.Frag} (hI : InvX b st g) (i : Nat) (s s' : Http.S) (lib' : H11M.St)
     (hi : st.objs[i]? = some (Stream.http s)) (hlast : i + 1 = st.objs.length)
     (ha : (s'.st = .response ∨ s'.st = .trailers) → s'.response.isSome = true)
     (hb : s'.closed = s.closed)
@@ -312,7 +319,7 @@ theorem inv_setHttp {st : St} {g : Ws.Frag} (hI : Inv st g) (i : Nat) (s s' : Ht
     (hd : lib'.client = .idle → st.lib.client = .idle)
     (he : s'.st ≠ .closed → lib'.client = .error ∨ H11M.NotBad lib'.server)
     (hh : lib'.waiting100 = true → st.wsMode = false → st.switched = false → lib'.server = .sendResponse ∧ st.pc = .inLoop) :
-    Inv { st with objs := st.objs.set i (Stream.http s'), lib := lib' } g := by
+    InvX b' { st with objs := st.objs.set i (Stream.http s'), lib := lib' } g := by
   have hlt : i < st.objs.length := by omega
   have hget : ∀ (j : Nat) (o : Stream), (st.objs.set i (Stream.http s'))[j]? = some o →
       (j = i ∧ o = Stream.http s') ∨ (j ≠ i ∧ st.objs[j]? = some o) := by
@@ -359,7 +366,7 @@ theorem inv_setHttp {st : St} {g : Ws.Frag} (hI : Inv st g) (i : Nat) (s s' : Ht
     rcases hget j _ h with ⟨_, he'⟩ | ⟨hne, h'⟩
     · cases he'; exact he hs
     · exact absurd (hother j _ hne h').1 hs
-  · intro j sw hcur h hs hcl
+  · intro _ j sw hcur h hs hcl
     exfalso
     have : j = i := by have := hI.curLast j hcur; omega
     subst this
@@ -368,14 +375,14 @@ theorem inv_setHttp {st : St} {g : Ws.Frag} (hI : Inv st g) (i : Nat) (s s' : Ht
     · exact hne rfl
   · exact hh
 
-theorem inv_setWs {st : St} {g : Ws.Frag} (hI : Inv st g) (i : Nat) (s s' : Ws.S) (lib' : H11M.St)
+theorem inv_setWs {b b' : Bool} {st : St} {g g' : Ws.Frag} (hI : InvX b st g) (i : Nat) (s s' : Ws.S) (lib' : H11M.St)
     (hi : st.objs[i]? = some (Stream.ws s)) (hlast : i + 1 = st.objs.length)
-    (ha : Ws.Ok s') (hbuf : s'.buffer = s.buffer)
-    (hb : s'.closed = s.closed)
+    (ha : Ws.Ok s') (hbuf : Ws.BufRel g' s'.buffer)
+    (hb : s'.closed = false → s.closed = false)
     (hc : s'.closed = true ∨ lib'.client ≠ .idle)
     (hd : lib'.client = .idle → st.lib.client = .idle)
-    (he : st.cur = some i → s'.st = .handshake → s'.closed = false → lib'.server = .sendResponse ∧ lib'.pendUpgrade = true) :
-    Inv { st with objs := st.objs.set i (Stream.ws s'), lib := lib' } g := by
+    (he : b' = true → st.cur = some i → s'.st = .handshake → s'.closed = false → lib'.server = .sendResponse ∧ lib'.pendUpgrade = true) :
+    InvX b' { st with objs := st.objs.set i (Stream.ws s'), lib := lib' } g' := by
   have hlt : i < st.objs.length := by omega
   have hwm : st.wsMode = true := (hI.wsObj i s hi).1
   have hget : ∀ (j : Nat) (o : Stream), (st.objs.set i (Stream.ws s'))[j]? = some o →
@@ -400,15 +407,17 @@ theorem inv_setWs {st : St} {g : Ws.Frag} (hI : Inv st g) (i : Nat) (s s' : Ws.S
     · cases he'
     · exact hI.httpObj j sh h' hs
   · intro j sw hcur h
-    rcases hget j _ h with ⟨rfl, he'⟩ | ⟨_, h'⟩
-    · cases he'; rw [hbuf]; exact hI.buf j s hcur hi
-    · exact hI.buf j sw hcur h'
-  · exact hI.frag0
+    have : j = i := by have := hI.curLast j hcur; omega
+    subst this
+    rcases hget j _ h with ⟨_, he'⟩ | ⟨hne, _⟩
+    · cases he'; exact hbuf
+    · exact absurd rfl hne
+  · intro h; rw [hwm] at h; cases h
   · intro j hcur; simp only [List.length_set]; exact hI.curLast j hcur
   · intro j o h hf
     rcases hget j _ h with ⟨rfl, he'⟩ | ⟨_, h'⟩
     · subst he'
-      exact hI.openCur j _ hi (by simpa [closedFlag, hb] using hf)
+      exact hI.openCur j _ hi (by simp only [closedFlag] at hf ⊢; exact hb hf)
     · exact hI.openCur j o h' hf
   · intro j o h
     simp only [List.length_set]
@@ -422,11 +431,11 @@ theorem inv_setWs {st : St} {g : Ws.Frag} (hI : Inv st g) (i : Nat) (s s' : Ws.S
     rcases hget j _ h with ⟨_, he'⟩ | ⟨hne, h'⟩
     · cases he'
     · exact absurd (hother j _ hne h').1 hs
-  · intro j sw hcur h hs hcl
+  · intro hb' j sw hcur h hs hcl
     have : j = i := by have := hI.curLast j hcur; omega
     subst this
     rcases hget j _ h with ⟨_, he'⟩ | ⟨hne, _⟩
-    · cases he'; exact he hcur hs hcl
+    · cases he'; exact he hb' hcur hs hcl
     · exact absurd rfl hne
   · intro _ h2; rw [hwm] at h2; cases h2
 
